@@ -68,3 +68,28 @@ func vH_C19_register_vs_channel_lockset() {
 	vAssert("C19.register.both-tracks", len(ch.trDatas) == 2)
 	vReach("C19.register.end")
 }
+
+// The report of a received chunk / complete segment is handed to the channel goroutine through ch.recSegCh. When the
+// queue is full the handler has to wait (a send that blocks: under symbolic execution that path simply ends, there
+// is no second goroutine in the model); returning without having queued the report would lose the upload for the
+// segment timeline. With room in the queue the report is queued as it is.
+func init() {
+	vHarnesses["vH_C19_report_queue_never_drops"] = vH_C19_report_queue_never_drops
+}
+
+func vH_C19_report_queue_never_drops() {
+	ch := &channel{name: "chA", recSegCh: make(chan recSegData, 1)}
+	full := vBool("full")
+	if full {
+		ch.recSegCh <- recSegData{name: "video", seqNr: 1}
+	}
+	seq := vInt("seq", 2, 1<<30)
+	ch.addChunkData(recSegData{name: "audio", seqNr: uint32(seq), chunkNr: 1, isComplete: true})
+	// reaching this point means addChunkData returned
+	vAssert("C19.queue.returned-only-after-queueing", !full && len(ch.recSegCh) == 1)
+	if len(ch.recSegCh) == 1 {
+		got := <-ch.recSegCh
+		vAssert("C19.queue.report-unchanged", got.name == "audio" && int(got.seqNr) == seq && got.isComplete && got.chunkNr == 1)
+	}
+	vReach("C19.queue.end")
+}
